@@ -242,14 +242,16 @@ void h_write_to_capacity(void) {
 /* the two lookup tables against their specification, all 256 values */
 void h_table_tolower(void) { GHOST_RESET();
     uint8_t c = nondet_u8();
-    __CPROVER_assert(aws_lookup_table_to_lower_get()[c] == SPEC_LOWER(c), "s_tolower_table[c] == SPEC_LOWER(c)");
+    __CPROVER_assert(aws_lookup_table_to_lower_get()[c] == SPEC_LOWER_F(c), "s_tolower_table[c] == SPEC_LOWER_F(c)");
+    __CPROVER_assert(SPEC_LOWER(c) == SPEC_LOWER_F(c), "specification table == formula");
     __CPROVER_assert(aws_lookup_table_to_lower_get()[c] == ((c >= 65 && c <= 90) ? c + 32 : c), "s_tolower_table[c]: ASCII upper case letters +32, everything else unchanged");
     CANARY("reached");
 }
 void h_table_hex_to_num(void) { GHOST_RESET();
     uint8_t c = nondet_u8();
     uint8_t v = aws_lookup_table_hex_to_num_get()[c];
-    __CPROVER_assert(v == SPEC_HEXVAL(c), "s_hex_to_num_table[c] == SPEC_HEXVAL(c)");
+    __CPROVER_assert(v == SPEC_HEXVAL_F(c), "s_hex_to_num_table[c] == SPEC_HEXVAL_F(c)");
+    __CPROVER_assert(SPEC_HEXVAL(c) == SPEC_HEXVAL_F(c), "specification table == formula");
     __CPROVER_assert((v == 255) == !SPEC_ISHEX(c), "255 exactly for non-hex characters");
     __CPROVER_assert((c >= 48 && c <= 57 ? v == c - 48 : 1) && (c >= 97 && c <= 102 ? v == c - 87 : 1) && (c >= 65 && c <= 70 ? v == c - 55 : 1), "digit values");
     CANARY("reached");
@@ -295,9 +297,12 @@ void h_hash_byte_cursor_ptr_ignore_case(void) { const void *c; GHOST_RESET(); ui
 
 /* ---------------- splitting / searching ---------------- */
 void h_next_split(void) { const struct aws_byte_cursor *in; char c; struct aws_byte_cursor *sub; GHOSTS_CMP();
-    bool first = 0;
     bool r = aws_byte_cursor_next_split(in, c, sub);
-    if (r) CANARY("piece"); else CANARY("done");
+#if defined(VERIF_NEXT_SPLIT_END)
+    if (!r) CANARY("done");
+#else
+    if (r) CANARY("piece"); else CANARY("done (input without storage)");
+#endif
 }
 void h_split_on_char_n(void) { const struct aws_byte_cursor *in; char c; size_t n; struct aws_array_list *out; GHOSTS_CMP();
     int r = aws_byte_cursor_split_on_char_n(in, c, n, out);
@@ -311,3 +316,53 @@ void h_find_exact(void) { const struct aws_byte_cursor *in; const struct aws_byt
     int r = aws_byte_cursor_find_exact(in, f, out);
     if (r == 0) CANARY("found"); else CANARY("not found");
 }
+
+/* ---------------- number parsing, character classes ---------------- */
+void h_s_read_unsigned(void) { struct aws_byte_cursor c; uint64_t *dst; uint8_t base; GHOSTS();
+    int r = s_read_unsigned(c, dst, base);
+    if (r == 0 && base == 10) CANARY("decimal parsed"); else if (r == 0) CANARY("hex parsed"); else CANARY("rejected");
+}
+void h_parse_u64(void) { struct aws_byte_cursor c; uint64_t *dst; GHOSTS();
+    int r = aws_byte_cursor_utf8_parse_u64(c, dst);
+    if (r == 0) CANARY("parsed"); else CANARY("rejected");
+}
+void h_parse_u64_hex(void) { struct aws_byte_cursor c; uint64_t *dst; GHOSTS();
+    int r = aws_byte_cursor_utf8_parse_u64_hex(c, dst);
+    if (r == 0) CANARY("parsed"); else CANARY("rejected");
+}
+/* bounded stand-in for the decimal value: every string of up to PARSE_N characters against a reference computed in
+ * 128-bit arithmetic (NOT counted as proof) */
+#ifndef PARSE_N
+#define PARSE_N 21
+#endif
+void h_parse_u64_bounded(void) { GHOST_RESET();
+    uint8_t s[PARSE_N];
+    size_t n = nondet_size_t();
+    __CPROVER_assume(n <= PARSE_N);
+    for (size_t i = 0; i < PARSE_N; ++i) s[i] = nondet_u8();
+    bool hex = nondet_bool();
+    unsigned base = hex ? 16 : 10;
+    __uint128_t ref = 0; bool ok = n > 0;
+    for (size_t i = 0; i < n; ++i) {
+        unsigned d = SPEC_HEXVAL(s[i]);
+        if (d >= base) ok = false;
+        if (ok) { ref = ref * base + d; if (ref > UINT64_MAX) ok = false; }
+    }
+    struct aws_byte_cursor c = {.len = n, .ptr = n ? s : NULL};
+    uint64_t v = nondet_u64();
+    int r = hex ? aws_byte_cursor_utf8_parse_u64_hex(c, &v) : aws_byte_cursor_utf8_parse_u64(c, &v);
+    __CPROVER_assert((r == AWS_OP_SUCCESS) == ok, "accepted exactly when non-empty, all digits valid and the value fits in 64 bits");
+    __CPROVER_assert(r == AWS_OP_SUCCESS || r == AWS_OP_ERR, "result code");
+    __CPROVER_assert(r == AWS_OP_SUCCESS ? v == (uint64_t)ref : v == 0, "value equals the reference; 0 on failure");
+    if (r == 0 && n == PARSE_N) CANARY("longest string parsed"); else if (r == 0) CANARY("parsed"); else CANARY("rejected");
+}
+#define H_ISX(name, SPEC) void h_##name(void) { GHOST_RESET(); uint8_t ch = nondet_u8(); bool r = aws_##name(ch); \
+    __CPROVER_assert(r == (SPEC), #name " agrees with its definition for every byte value"); if (r) CANARY("in class"); else CANARY("not in class"); }
+#define IS_UP(c) ((c) >= 65 && (c) <= 90)
+#define IS_LO(c) ((c) >= 97 && (c) <= 122)
+#define IS_DG(c) ((c) >= 48 && (c) <= 57)
+H_ISX(isalnum, IS_UP(ch) || IS_LO(ch) || IS_DG(ch))
+H_ISX(isalpha, IS_UP(ch) || IS_LO(ch))
+H_ISX(isdigit, IS_DG(ch))
+H_ISX(isxdigit, IS_DG(ch) || (ch >= 65 && ch <= 70) || (ch >= 97 && ch <= 102))
+H_ISX(isspace, ch == 32 || (ch >= 9 && ch <= 13))
